@@ -63,6 +63,7 @@ def build_genc_campaign(tier, sd):
         add_E(2, 2, 0.5, 2, tl=True)
         add_E(4, 1, 0.05, 2)
         nrand = 2500
+    campaign.add_PH(cp, tier, rnd, ["lua"], modes=("drip",), pfrac=0.5 if tier == "quick" else None)
     rc = families.RandomCharts(sd * 7331 + 3)
     n0 = len(cp.charts)
     for i in range(nrand):
